@@ -560,8 +560,140 @@ fn run_e2x(c: Cfg) -> String {
     )
 }
 
+
+// ---------------------------------------------------------------------------------------------
+// `peer`: the other end is NOT tonic — a scripted peer puts arbitrary legal headers / trailers on
+// the wire (padded and unpadded base64 under -bin names, repeated names, metadata in OK trailers,
+// request trailers) and tonic's receiving half presents them through the typed API.
+//
+//   peer cli <u|s> <hmap H> <nmsg> <0|1> [<hmap T>]   tonic client (unary | server_streaming) facing a
+//        response with headers H, nmsg messages and (1) a trailers frame T
+//   peer srv <u|s> <hmap H> <0|1> [<hmap T>]          tonic server (unary | streaming handler) given
+//        a request with headers H, one message and (1) request trailers T
+// Observed (cli, after `peer client`): u: `ok <view>` | `err <status>`; s: `ok <view> msgs <n> then end some <view> | end none | err <status>`
+//           srv u: `srv <view> client <code>`; srv s: `srv <view> tr some <view> | tr none client <code>`
+
+fn grpc_frame(payload: &[u8]) -> bytes::Bytes {
+    let mut b = vec![0u8];
+    b.extend_from_slice(&(payload.len() as u32).to_be_bytes());
+    b.extend_from_slice(payload);
+    b.into()
+}
+
+fn scripted_body(nmsg: usize, trailers: Option<http::HeaderMap>) -> Body {
+    let mut frames: Vec<Result<http_body::Frame<bytes::Bytes>, Status>> = (0..nmsg).map(|i| Ok(http_body::Frame::data(grpc_frame(&[i as u8, 1, 2])))).collect();
+    if let Some(t) = trailers {
+        frames.push(Ok(http_body::Frame::trailers(t)));
+    }
+    Body::new(http_body_util::StreamBody::new(tokio_stream::iter(frames)))
+}
+
+fn run_peer<'a>(it: &mut impl Iterator<Item = &'a str>) -> Option<String> {
+    let side = it.next()?;
+    let shape = it.next()?.to_string();
+    let headers = crate::c04::parse_entries(it)?;
+    let rt = tokio::runtime::Builder::new_current_thread().build().unwrap();
+    match side {
+        "cli" => {
+            let nmsg: usize = it.next()?.parse().ok()?;
+            let trailers = if it.next()? == "1" { Some(crate::c04::parse_entries(it)?) } else { None };
+            let svc = tower::service_fn(move |_req: http::Request<Body>| {
+                let mut resp = http::Response::new(scripted_body(nmsg, trailers.clone()));
+                *resp.headers_mut() = headers.clone();
+                async move { Ok::<_, Status>(resp) }
+            });
+            Some(rt.block_on(async move {
+                let mut client = tonic::client::Grpc::new(svc);
+                client.ready().await.unwrap();
+                let path = http::uri::PathAndQuery::from_static("/verif.Svc/Method");
+                if shape == "u" {
+                    match client.unary::<Vec<u8>, Vec<u8>, _>(Request::new(vec![9u8]), path, RawCodec).await {
+                        Ok(r) => format!("peer client ok {}", typed_view(r.metadata())),
+                        Err(st) => format!("peer client err {}", status_view(&st)),
+                    }
+                } else {
+                    match client.server_streaming::<Vec<u8>, Vec<u8>, _>(Request::new(vec![9u8]), path, RawCodec).await {
+                        Ok(r) => {
+                            let head = typed_view(r.metadata());
+                            let mut s = r.into_inner();
+                            let mut got = 0usize;
+                            let tail = loop {
+                                match s.message().await {
+                                    Ok(Some(_)) => got += 1,
+                                    Ok(None) => {
+                                        break match s.trailers().await {
+                                            Ok(Some(t)) => format!("end some {}", typed_view(&t)),
+                                            Ok(None) => "end none".to_string(),
+                                            Err(_) => "end trailers-err".to_string(),
+                                        }
+                                    }
+                                    Err(st) => break format!("err {}", status_view(&st)),
+                                }
+                            };
+                            format!("peer client ok {} msgs {} then {}", head, got, tail)
+                        }
+                        Err(st) => format!("peer client err {}", status_view(&st)),
+                    }
+                }
+            }))
+        }
+        "srv" => {
+            let trailers = if it.next()? == "1" { Some(crate::c04::parse_entries(it)?) } else { None };
+            let mut hreq = http::Request::new(scripted_body(1, trailers));
+            *hreq.method_mut() = http::Method::POST;
+            *hreq.version_mut() = http::Version::HTTP_2;
+            *hreq.uri_mut() = http::Uri::from_static("http://verif.test/verif.Svc/Method");
+            *hreq.headers_mut() = headers;
+            let seen: Arc<Mutex<Option<String>>> = Arc::new(Mutex::new(None));
+            let seen2 = seen.clone();
+            let code = rt.block_on(async move {
+                let mut server = tonic::server::Grpc::new(RawCodec);
+                let hresp = if shape == "u" {
+                    let handler = tower::service_fn(move |r: Request<Vec<u8>>| {
+                        *seen2.lock().unwrap() = Some(format!("srv {}", typed_view(r.metadata())));
+                        async move { Ok::<_, Status>(Response::new(vec![1u8])) }
+                    });
+                    server.unary(handler, hreq).await
+                } else {
+                    let handler = tower::service_fn(move |r: Request<Streaming<Vec<u8>>>| {
+                        let seen2 = seen2.clone();
+                        async move {
+                            let head = typed_view(r.metadata());
+                            let mut s = r.into_inner();
+                            while let Ok(Some(_)) = s.message().await {}
+                            let tr = match s.trailers().await {
+                                Ok(Some(t)) => format!("tr some {}", typed_view(&t)),
+                                Ok(None) => "tr none".to_string(),
+                                Err(_) => "tr err".to_string(),
+                            };
+                            *seen2.lock().unwrap() = Some(format!("srv {} {}", head, tr));
+                            Ok::<_, Status>(Response::new(tokio_stream::iter(vec![Ok::<_, Status>(vec![1u8])])))
+                        }
+                    });
+                    server.streaming(handler, hreq).await
+                };
+                // drive the response body to its trailers: the status the peer would get
+                use http_body_util::BodyExt;
+                let (parts, body) = hresp.into_parts();
+                let mut code = parts.headers.get("grpc-status").map(|v| String::from_utf8_lossy(v.as_bytes()).to_string());
+                let mut body = std::pin::pin!(body);
+                while let Some(Ok(f)) = body.frame().await {
+                    if let Some(t) = f.trailers_ref() {
+                        code = t.get("grpc-status").map(|v| String::from_utf8_lossy(v.as_bytes()).to_string());
+                    }
+                }
+                code.unwrap_or("none".into())
+            });
+            let s = seen.lock().unwrap().clone().unwrap_or("srv notcalled".into());
+            Some(format!("{} client {}", s, code))
+        }
+        _ => None,
+    }
+}
+
 pub fn execute<'a>(kind: &str, it: &mut impl Iterator<Item = &'a str>) -> String {
     match kind {
+        "peer" => run_peer(it).unwrap_or_else(|| "bad-case".into()),
         "e2x" => match parse_cfg(it) {
             Some(c) => run_e2x(c),
             None => "bad-case".into(),
@@ -657,5 +789,96 @@ pub fn generate(thorough: bool, rng: &mut Rng, out: &mut Vec<String>) {
             stmd = no_timeout_key(stmd);
         }
         out.push(format!("e2x {} {} {} {} {} {} {} {}", knobs_tok(k), mode, code, hex(msg.as_bytes()), hex(&det), typed_tok(&req), typed_tok(&resp), typed_tok(&stmd)));
+    }
+    // ---- a peer that is not tonic
+    gen_peer(thorough, rng, out);
+}
+
+fn peer_entries(rng: &mut Rng, prefix: &str, max: u64) -> Vec<(Vec<u8>, Vec<u8>)> {
+    let n = rng.below(max + 1);
+    let mut es: Vec<(Vec<u8>, Vec<u8>)> = Vec::new();
+    for _ in 0..n {
+        if !es.is_empty() && rng.chance(1, 3) {
+            // repeat an earlier name
+            let k = es[rng.below(es.len() as u64) as usize].0.clone();
+            let v = if k.ends_with(b"-bin") { peer_bin(rng) } else { crate::c04::gen_value(rng) };
+            es.push((k, v));
+            continue;
+        }
+        let base = *rng.pick(&["x-a", "foo", "x-trace-id", "k", "x-bin-x", "authorization", "bin"]);
+        if rng.chance(1, 2) {
+            es.push((format!("{}{}-bin", prefix, base).into_bytes(), peer_bin(rng)));
+        } else {
+            es.push((format!("{}{}", prefix, base).into_bytes(), crate::c04::gen_value(rng)));
+        }
+    }
+    es
+}
+
+/// a binary value as some peer writes it: base64 of random bytes, padded or not
+fn peer_bin(rng: &mut Rng) -> Vec<u8> {
+    use base64::Engine;
+    let v = super::gen_bin_value(rng);
+    if rng.chance(1, 2) {
+        base64::engine::general_purpose::STANDARD.encode(&v).into_bytes()
+    } else {
+        base64::engine::general_purpose::STANDARD_NO_PAD.encode(&v).into_bytes()
+    }
+}
+
+fn gen_peer(thorough: bool, rng: &mut Rng, out: &mut Vec<String>) {
+    use crate::c04::entries_tok;
+    let ct = (b"content-type".to_vec(), b"application/grpc".to_vec());
+    // corpus: padded binary in headers, in OK trailers and in error trailers; a name in both
+    let h = vec![ct.clone(), (b"x-a".to_vec(), b"1".to_vec()), (b"k-bin".to_vec(), b"AAEC/w==".to_vec()), (b"x-a".to_vec(), b"2".to_vec())];
+    for (code, extra) in [("0", vec![(b"t-bin".to_vec(), b"BA==".to_vec()), (b"t-bin".to_vec(), b"BQY".to_vec()), (b"x-t".to_vec(), b"v".to_vec())]), ("7", vec![(b"t-bin".to_vec(), b"BA==".to_vec()), (b"x-t".to_vec(), b"v".to_vec())]), ("0", vec![(b"x-a".to_vec(), b"3".to_vec())])] {
+        let mut t = vec![(b"grpc-status".to_vec(), code.as_bytes().to_vec())];
+        t.extend(extra);
+        for shape in ["u", "s"] {
+            for nmsg in 0..3 {
+                out.push(format!("peer cli {} {} {} 1 {}", shape, entries_tok(&h), nmsg, entries_tok(&t)));
+            }
+        }
+    }
+    let hq = vec![(b"te".to_vec(), b"trailers".to_vec()), ct.clone(), (b"user-agent".to_vec(), b"grpc-go/1.60".to_vec()), (b"x-a".to_vec(), b"1".to_vec()), (b"k-bin".to_vec(), b"AAEC/w==".to_vec()), (b"x-a".to_vec(), b"2".to_vec())];
+    for shape in ["u", "s"] {
+        out.push(format!("peer srv {} {} 0", shape, entries_tok(&hq)));
+        out.push(format!("peer srv {} {} 1 {}", shape, entries_tok(&hq), entries_tok(&[(b"t-bin".to_vec(), b"BA==".to_vec()), (b"x-t".to_vec(), b"v".to_vec())])));
+    }
+    let n = if thorough { 30000 } else { 1500 };
+    for _ in 0..n {
+        let shape = *rng.pick(&["u", "s"]);
+        if rng.chance(2, 3) {
+            let mut h = vec![ct.clone()];
+            h.extend(peer_entries(rng, "", 4));
+            let nmsg = rng.below(3);
+            if rng.chance(1, 12) {
+                out.push(format!("peer cli {} {} {} 0", shape, entries_tok(&h), nmsg));
+                continue;
+            }
+            let code = if rng.chance(1, 2) { 0 } else { rng.range(1, 16) };
+            let mut t = vec![(b"grpc-status".to_vec(), code.to_string().into_bytes())];
+            // trailer names: mostly their own, sometimes shared with the headers
+            let prefix = if rng.chance(1, 4) { "" } else { "t-" };
+            t.extend(peer_entries(rng, prefix, 3));
+            if rng.chance(1, 2) {
+                let n = t.len();
+                t.swap(0, n - 1);
+            }
+            out.push(format!("peer cli {} {} {} 1 {}", shape, entries_tok(&h), nmsg, entries_tok(&t)));
+        } else {
+            let mut h = vec![(b"te".to_vec(), b"trailers".to_vec()), ct.clone()];
+            if rng.chance(1, 2) {
+                h.push((b"user-agent".to_vec(), b"grpc-c++/1.62 (linux)".to_vec()));
+            }
+            h.extend(peer_entries(rng, "", 4));
+            if rng.chance(1, 2) {
+                out.push(format!("peer srv {} {} 0", shape, entries_tok(&h)));
+            } else {
+                // request trailers under names of their own (a name shared with the headers is the
+                // merge C08-F1 / F3 describe)
+                out.push(format!("peer srv {} {} 1 {}", shape, entries_tok(&h), entries_tok(&peer_entries(rng, "t-", 3))));
+            }
+        }
     }
 }
